@@ -18,7 +18,7 @@ SMALL = dict(CONSTS, Conns='{"c1", "c2", "c3"}', MaxReq="6")
 
 
 def group_of(cfgv):
-    mode = {"tls": '"server"', "mtls": '"mtls"', "mtls-vc": '"mtls"'}.get(cfgv.get("tls", ""), '"none"')
+    mode = {"tls": '"server"', "mtls": '"mtls"', "mtls-vc": '"mtls"', "anycert": '"anycert"'}.get(cfgv.get("tls", ""), '"none"')
     return (mode, "TRUE" if cfgv.get("expect_run_error") == "1" else "FALSE", "TRUE" if cfgv.get("read_timeout_ms") else "FALSE")
 
 
